@@ -224,6 +224,20 @@ def gen_cases(seed, tier):
             gid += 1
             for f in FORMS:
                 cases.append(dict(kind="lockstep", form=f, ops=render_uniform(ops, f), group=f"ex{gid}", nregs=2))
+    # 2b. sizes named by new literals of the changed code (a representation switch at 8 entries, a capacity of 16, ...):
+    #     compositions with d-1, d, d+1 distinct keys, then an increment of a present key, of a new key, and arithmetic
+    from . import common as _c
+    tk = all_table_keys()
+    for d in _c.dict_ints(3, min(400, len(tk))):
+        keys_d = rng.sample(tk, d)
+        kv = ",".join(f"{k}={rng.randint(1, 9)}" for k in keys_d)
+        extra = next(k for k in tk if k not in keys_d)
+        ops = ["new 0 vec", "new 1 vec", f"fromkv 0 vec iterES {kv}", f"fromkv 1 vec vecES {kv}", "fmass 0",
+               f"inc 0 {keys_d[0]} 5", f"inc 0 {extra} 2", f"iadd 1 {keys_d[-1]} 3", "add 2 0 1 ref", "sub 2 0 1 val", "addi 0 1 own",
+               f"get 0 {keys_d[0]}", f"get 0 {extra}", "fmass 0", "fmass 1", "fmass 2", "eq 0 1"]
+        gid += 1
+        for f in FORMS:
+            cases.append(dict(kind="lockstep", form=f, ops=render_uniform(ops, f), group=f"dict{gid}", nregs=3))
     # 3. random long histories: lock-step groups and mixed-representation ones; one in eight draws its keys from a
     #    pool of 70 keys of the whole table, so that compositions grow past 8, 16, 32, 64 entries (growth of the
     #    vector, resizes of the hash table, any size-triggered switch of representation)
